@@ -20,6 +20,13 @@ def main(argv):
     chk = Check(pid, tier, LEVEL[pid])
     ctx = Ctx(tier)
     try:
+        from .ctx import contracts_valid
+        import os
+        okc, msg = contracts_valid(os.environ.get("AIS_REPO", "/repo"))
+        chk.assumptions.append("contracts: " + msg)
+        if not okc:
+            chk.violation("%s/contracts-not-validated" % pid, "reason=unanalysable: contracts not validated for this dependency version: " + msg)
+            return chk.finish()
         mod = importlib.import_module(".rules." + pid.lower(), __package__)
         mod.run(ctx, chk)
     except Unanalysable as u:
